@@ -358,10 +358,11 @@ void h_rnode_emitnorep(void)
 }
 
 /* one copy of the node, abstractly: at most N instructions */
+struct ghost_cnt { int last_start; } CKV;	/* where the most recent copy of the node begins */
 void rnode_emitnorep_abs_contract(struct rnode *n, struct regex *p)
 __CPROVER_requires(n == CK.n && p == CK.p && 0 <= p->n && p->n <= CK.cap - CK.N)
-__CPROVER_assigns(p->n, __CPROVER_object_whole(p->p))
-__CPROVER_ensures(__CPROVER_old(p->n) <= p->n && p->n - __CPROVER_old(p->n) <= CK.N)
+__CPROVER_assigns(p->n, __CPROVER_object_whole(p->p), CKV.last_start)
+__CPROVER_ensures(__CPROVER_old(p->n) <= p->n && p->n - __CPROVER_old(p->n) <= CK.N && CKV.last_start == __CPROVER_old(p->n))
 ;
 void rnode_emit_contract(struct rnode *n, struct regex *p)
 __CPROVER_requires(0 < CK.cap && CK.cap <= 4 * NINST && 0 <= CK.N && CK.N <= 2 * NINST + 2)
@@ -370,8 +371,10 @@ __CPROVER_requires(__CPROVER_is_fresh(p, sizeof(*p)) && __CPROVER_is_fresh(p->p,
 __CPROVER_requires(n == CK.n && p == CK.p)
 /* room for the estimate, and the estimate is not saturated (regcomp rejects >= NINST) */
 __CPROVER_requires(p->n == CK.e && 0 <= p->n && COUNTF(n->mincnt, n->maxcnt, CK.N) < NINST && p->n <= CK.cap - COUNTF(n->mincnt, n->maxcnt, CK.N))
-__CPROVER_assigns(p->n, __CPROVER_object_whole(p->p))
+__CPROVER_assigns(p->n, __CPROVER_object_whole(p->p), CKV.last_start)
 __CPROVER_ensures(__CPROVER_old(p->n) <= p->n && p->n - __CPROVER_old(p->n) <= COUNTF(n->mincnt, n->maxcnt, CK.N))
+/* C10 (x* x+ x{m,} are loops): an open-ended repetition ends with a fork whose first (preferred: greedy) branch re-enters the LAST copy of the node and whose second branch leaves */
+__CPROVER_ensures((n->maxcnt < 0 && !(n->mincnt == 0 && n->maxcnt == 0)) ==> (p->n >= 1 && p->p[p->n - 1].ri == RI_FORK && p->p[p->n - 1].a1 == CKV.last_start && p->p[p->n - 1].a2 == p->n))
 ;
 #pragma CPROVER check push
 #pragma CPROVER check disable "signed-overflow"
